@@ -152,7 +152,7 @@ func (k *kase) finish(dir string) {
 	}
 	switch {
 	case k.Array:
-		sb.WriteString(" -a a < " + file + `; p "$?" "${#a[@]}" "${a[0]}" "${a[1]}" "${a[2]}" "${a[3]}" "${a[4]}" "${a[5]}" "${a[6]}" "${a[7]}" "${a[8]}" "${a[9]}"`)
+		sb.WriteString(" -a a < " + file + `; p "$?" "${#a[@]}" "${a[0]}" "${a[1]}" "${a[2]}" "${a[3]}" "${a[4]}" "${a[5]}" "${a[6]}" "${a[7]}" "${a[8]}" "${a[9]}"; q "${a[@]}"`)
 	case k.K == 0:
 		sb.WriteString(" < " + file + `; p "$?" "$REPLY"`)
 	default:
@@ -167,7 +167,7 @@ func (k *kase) finish(dir string) {
 	}
 }
 
-const prelude = `p() { printf '<%s>' "$@"; }`
+const prelude = `p() { printf '<%s>' "$@"; }; q() { printf '[%s]' "$#"; }`
 
 func (k *kase) runReadFields() {
 	line, _ := logicalLine(k.input, k.Raw)
@@ -198,6 +198,9 @@ func (k *kase) runReadFields() {
 // parse "<v1><v2>.." produced by p; values never contain '<' or '>'
 func parseVals(s string) [][]int {
 	var out [][]int
+	if i := strings.IndexByte(s, '['); i >= 0 { // the [count] printed by q for -a
+		s = s[:i]
+	}
 	for len(s) > 0 {
 		if s[0] != '<' {
 			return nil
@@ -265,6 +268,9 @@ func (k *kase) bytesPreserved() bool {
 		line = string(b)
 	}
 	s := k.Interp
+	if i := strings.IndexByte(s, '['); i >= 0 {
+		s = s[:i]
+	}
 	first := true
 	for len(s) > 0 {
 		if s[0] != '<' {
